@@ -86,8 +86,8 @@ package receiver
 //@   requires[C10] [not-dry-run] !rt.Opts.DryRun
 //@   requires [stat-current] infoUid(data(st)) == select(ghost.uid, fkey(rt, f)) && infoGid(data(st)) == select(ghost.gid, fkey(rt, f))
 //@   modifies ghost.uid, ghost.gid
-//@   ensures[C11] [uid] err == nil && rt.Opts.PreserveUid && G.receiver.amRoot ==> select(ghost.uid, fkey(rt, f)) == mod(f.Uid, 4294967296)
-//@   ensures[C11] [uid-kept] err == nil && !(rt.Opts.PreserveUid && G.receiver.amRoot) ==> select(ghost.uid, fkey(rt, f)) == old(select(ghost.uid, fkey(rt, f)))
+//@   ensures[C11] [uid] err == nil && rt.Opts.PreserveUid && global("receiver.amRoot") ==> select(ghost.uid, fkey(rt, f)) == mod(f.Uid, 4294967296)
+//@   ensures[C11] [uid-kept] err == nil && !(rt.Opts.PreserveUid && global("receiver.amRoot")) ==> select(ghost.uid, fkey(rt, f)) == old(select(ghost.uid, fkey(rt, f)))
 //@   ensures[C11] [gid-kept] err == nil && !rt.Opts.PreserveGid ==> select(ghost.gid, fkey(rt, f)) == old(select(ghost.gid, fkey(rt, f)))
 //@   ensures[C11] [others-untouched] forall k :: k != fkey(rt, f) ==> select(ghost.uid, k) == old(select(ghost.uid, k)) && select(ghost.gid, k) == old(select(ghost.gid, k))
 
